@@ -37,6 +37,49 @@ DELIVERABLES - create the directory {wt}/seed_out and put there, numbered 1, 2, 
   {wt}/seed_out/defect_N.py     run as: cd {wt} && PYTHONPATH={wt}/src:{wt} /venv/bin/python seed_out/defect_N.py   (exits 1 on the unmodified tree)
   {wt}/seed_out/defect_N.md     5-10 lines: the input class, what happens, which line(s) of the library cause it, and the smallest change you think would repair it
 Quality matters more than quantity: only deliver defects you have reproduced, and say clearly when something is merely suspicious. Finish with a short report listing the defects, most serious first. If you find none after a thorough search, say so and describe what you tried.""")
+elif mode == 'hard6':
+    print(f"""You are helping to evaluate a verification tool by writing realistic, hard-to-notice defects ("seeded changes").
+
+{common}
+YOUR TASK: produce THREE different, independent changes to the library source under {wt}/src/emsarray (call them A, B and C), each of which
+  1. BREAKS the property above (for some input / configuration / history the statement becomes false),
+  2. still imports/compiles and keeps every currently passing test of the existing suite passing (unchanged test files),
+  3. needs something SPECIFIC to manifest; ordinary use of the sample datasets must not expose it.
+Each change must read like a REAL upstream commit with a purpose other than breaking things, each of a DIFFERENT kind out of:
+  * a performance optimisation: a cache or memo that can go stale or is keyed on too little, a python loop vectorised with numpy / shapely / pandas in a way that differs for masked, empty, duplicate, unsorted or non-contiguous input, a copy avoided (a view or the caller's object is now mutated), a shortcut for "the common case" whose test is slightly too wide;
+  * an API modernisation or dependency adaptation: one library call swapped for a "newer equivalent" that differs in a corner (ordering of numpy.unique vs pandas.unique vs dict.fromkeys, `.sizes` vs `.dims` vs `.shape`, `drop_vars(errors='ignore')`, `numpy.asarray` vs `numpy.array`, `astype(copy=False)`, shapely 2 vectorised functions and their handling of None / empty geometries, `Path.suffix` vs `suffixes`, `str.removesuffix`, `zip(strict=...)`, `itertools.pairwise`, `math.prod`, `functools.cache` on a method);
+  * a small feature: a new optional argument, option or attribute whose default or threading through the call chain is subtly wrong for one caller, one convention subclass or one grid kind;
+  * a robustness tweak: an `except` widened, a default / fallback supplied where the code used to refuse, a warning instead of an error, tolerance added to a comparison, input silently coerced;
+  * a clean-up: duplicated code merged into a helper that is right for one of its two callers only, a "redundant" conversion / sort / copy / check removed, a class attribute or module constant shared where it was per-instance, a condition simplified with boolean algebra that is wrong for one combination.
+Think of the bug patterns that really occur in xarray / numpy / shapely code: dtype promotion and integer overflow, dimension order and transposed storage, views against copies, NaN and masked entries, empty selections, `in` and `==` on arrays, float equality, dictionary and set ordering, mutable defaults and class-level state, a cached_property that goes stale, an exception that is swallowed, an off-by-one in a slice, 0-based against 1-based indexes. 3-25 changed lines each, with the comment, naming and (if you like) docstring change such a commit would carry. They must be made in different functions, and at least one must be made outside the functions the property names as its anchors (in a helper, property, base class, sibling convention or the command line wiring that the anchored code relies on).
+For each change write a demonstration: a standalone Python program that exits with status 0 when the property holds and 1 (printing what went wrong) when violated; it must exit 0 on the UNMODIFIED tree and 1 with the change applied. Locate any data files relative to the current working directory (the worktree root), never via __file__. Do not compare against text that contains the name of your script (argparse error messages do).
+
+DELIVERABLES - create the directory {wt}/seed_out and put there, for X in (A, B, C):
+  {wt}/seed_out/patch_X.diff   output of `git diff -- src` with ONLY change X applied (each patch applies alone to the unmodified tree with `git apply`)
+  {wt}/seed_out/demo_X.py       run as: cd {wt} && PYTHONPATH={wt}/src:{wt} /venv/bin/python seed_out/demo_X.py
+  {wt}/seed_out/notes_X.md      3-8 lines: what the change is (and which kind of commit it imitates), why it breaks the property, what it needs to manifest, what you ran (suite before/after, demo exit codes)
+Leave the worktree with NO change applied at the end (git checkout -- src), keep seed_out/. Finish with a short report. If you cannot find three good changes deliver as many as you can.""")
+elif mode == 'benign6':
+    print(f"""You are helping to evaluate a verification tool by writing BEHAVIOUR-PRESERVING refactorings: edits a maintainer might make that change how the code is written but not what it does. The tool under evaluation must stay silent on them.
+
+{common}
+YOUR TASK: produce FOUR different, independent, behaviour-preserving refactorings (call them A, B, C and D) of the code this property depends on (the functions it is anchored in, the helpers, properties and base-class methods they rely on) under {wt}/src/emsarray. Each must
+  1. leave the behaviour exactly the same for every input (the property above, and every other behaviour, still holds; same results, same dtypes and orders, same exceptions and messages, same warnings),
+  2. compile and keep every currently passing test passing,
+  3. read like a REAL upstream commit, each of a DIFFERENT kind out of:
+     * modernisation: assignment expressions (walrus), `match` statements (Python 3.12 is the interpreter here), `itertools.pairwise` / `zip(strict=True)` / `math.prod` / `str.removeprefix`, f-strings, `pathlib`, `functools.partial` for a closure, `operator.itemgetter` / `attrgetter` for a lambda, `dict | dict`, `contextlib` helpers, `enumerate(start=...)`;
+     * restructuring: one function split into two (or two private helpers merged into one), a nested function moved to module level or into a staticmethod, a chain of `if` turned into a dispatch table or the reverse, a tuple of intermediates turned into a small dataclass / NamedTuple, a method body moved into a module-level function that the method calls, a cached_property's body extracted;
+     * control flow: LBYL <-> EAFP where exactly equivalent (`if k in d: x = d[k]` <-> `try: x = d[k] except KeyError`), loop `else` clauses, a flag variable replaced by early exit, `while` <-> `for`, nested `if` flattened with `and`, De Morgan, comparisons chained or unchained, the branches of an if/else swapped with the test negated;
+     * data handling with identical results: a python loop vectorised with numpy where the result (values, dtype, order) is identical, boolean mask <-> `numpy.flatnonzero` index array, `numpy.where(c)[0]` <-> `numpy.flatnonzero(c)`, `x[..., 0]` <-> `numpy.take`, `list(map(f, xs))` <-> comprehension, `sorted(set(x))` <-> `numpy.unique(x).tolist()` only where the element types make them equal, building a dict with `dict(zip(...))`, `any(...)` / `all(...)` for a loop with a flag;
+     * naming and layout: renaming parameters' local copies and locals throughout, reordering independent statements and independent guard clauses (only where the raised exception for inputs violating both stays the same), moving literals into module-level or class-level constants, introducing intermediate variables for long expressions or removing them.
+  At least TWO of the four must combine two of these kinds in one commit, as real commits do (extract a helper AND modernise its body; rename AND restructure the control flow). 12-60 changed lines each, touching different functions where possible, and preferring functions OTHER than the single most central one of this property. Do NOT change semantics, defaults, error types or messages, and do not touch the tests.
+For each refactoring write an equivalence demonstration: a standalone Python program that exercises the refactored functions on several inputs (including awkward ones: one-based and transposed storage, masked entries, 1xN shapes, several grid kinds, empty selections, whatever this property is about) and compares results with expected values computed independently or recorded from the unmodified tree (embed the expected values in the script); it must exit 0 both on the unmodified tree and with the refactoring applied. Locate any data files relative to the current working directory (the worktree root), never via __file__. Do not compare against text that contains the name of your script (argparse error messages do) or memory addresses.
+
+DELIVERABLES - create the directory {wt}/seed_out and put there, for X in (A, B, C, D):
+  {wt}/seed_out/patch_X.diff   output of `git diff -- src` with ONLY refactoring X applied (each patch applies alone to the unmodified tree with `git apply`)
+  {wt}/seed_out/demo_X.py       run as: cd {wt} && PYTHONPATH={wt}/src:{wt} /venv/bin/python seed_out/demo_X.py   (exit 0 with and without the patch)
+  {wt}/seed_out/notes_X.md      2-5 lines: what kind of refactoring it is, why behaviour is unchanged, what you ran
+Leave the worktree with NO change applied at the end (git checkout -- src), keep seed_out/. Finish with a short report.""")
 elif mode == 'hard5':
     print(f"""You are helping to evaluate a verification tool by writing realistic, hard-to-notice defects ("seeded changes").
 
